@@ -1,5 +1,6 @@
 CONSTANT N = 3
 CONSTANT M = 4
+CONSTANT M2 = 4
 INIT MCInit
 NEXT Step
 INVARIANT Fidelity
